@@ -676,7 +676,7 @@ func g6CheckDamaged(c *Ctx, cd *g6Codec, what, d string, n0 int, truncated bool,
 func g6Run(c *Ctx, cd *g6Codec) *Violation {
 	t := c.T
 	n, adj := g6Draw(c, cd.directed)
-	c.Declare("node_ids_not_0_to_n-1", "negative_ids_with_largest_n-1", "header_4_byte_form", "damaged_string_still_valid", "damaged_string_invalid", "noncanonical_accepted", "substitution_exhaustive", "substitution_sampled")
+	c.Declare("hand_written_long_header", "node_ids_not_0_to_n-1", "negative_ids_with_largest_n-1", "header_4_byte_form", "damaged_string_still_valid", "damaged_string_invalid", "noncanonical_accepted", "substitution_exhaustive", "substitution_sampled")
 	// node IDs of the graph handed to Encode: 0..n-1, or any increasing
 	// sequence (negative, with gaps, far from zero)
 	ids := make([]int64, n)
@@ -747,6 +747,47 @@ func g6Run(c *Ctx, cd *g6Codec) *Violation {
 		c.Probe("header_4_byte_form", 1)
 	}
 	hs := hashString(s)
+	// structured header corruption: the 4-byte ("~" + 18 bits) and 8-byte
+	// ("~~" + 36 bits) order forms never come out of Encode for the orders
+	// generated here, so they are written by hand - complete, cut at every
+	// length, with small and with huge orders, with a few data bytes - and
+	// judged like any damaged string
+	{
+		prefix := ""
+		if cd.directed {
+			prefix = "&"
+		}
+		pick := func(k int) string {
+			b := make([]byte, k)
+			for i := range b {
+				b[i] = []byte{63, 63, 63, 64, 65, 126, 100}[t.Choose(simrt.KValue, 7)]
+			}
+			return string(b)
+		}
+		hdr := prefix + "~" + pick(3)
+		if t.Choose(simrt.KWorkload, 2) == 1 {
+			hdr = prefix + "~~" + pick(6)
+		}
+		switch t.Choose(simrt.KWorkload, 6) {
+		case 4:
+			// orders whose square is a multiple of 2^64: 2^32, 2^33, 3*2^32
+			hdr = prefix + "~~" + []string{"C?????", "G?????", "K?????"}[t.Choose(simrt.KValue, 3)]
+		case 5:
+			hdr = prefix + "~~" + []string{"~~~~~~", "_?????", "B?????"}[t.Choose(simrt.KValue, 3)]
+		}
+		hdr += pick(t.Choose(simrt.KWorkload, 4))
+		c.Probe("hand_written_long_header", 1)
+		for k := 0; k <= len(hdr); k++ {
+			d, kk := hdr[:k], k
+			what := fmt.Sprintf("hand-written long-form header %q cut to %d bytes: ", hdr, kk)
+			if v := c.Guard("Graph/header-form", func() string { return what + g6Show(d) }, func() *Violation {
+				c.Case("eof@k", true, hashString(hdr), uint64(kk), 77)
+				return g6CheckDamaged(c, cd, what, d, n, false, kk, 0)
+			}); v != nil {
+				return v
+			}
+		}
+	}
 	// every truncation
 	for k := 0; k < len(s); k++ {
 		d, kk := s[:k], k
